@@ -1843,9 +1843,11 @@ func (p *balloons) pinCpuMem(c cache.Container, cpus cpuset.CPUSet, mems idset.I
 			if err != nil {
 				log.Error("failed to parse CpusetMems: %v", err)
 			} else {
+				// Account for the memory of the container but
+				// do not touch its pinning, even if it does
+				// not fit its current nodes.
 				zone := p.allocMem(c, preserveMems, 0, true)
 				log.Debug("  - allocated preserved memory %s", c.PrettyName, zone)
-				c.SetCpusetMems(zone.MemsetString())
 			}
 		} else {
 			effMemTypeMask, err := c.MemoryTypes()
